@@ -85,6 +85,8 @@ class OptimizerConfig(ImmutableBaseModel):
 
     @model_validator(mode="after")
     def _method(self) -> Self:
+        if self._is_validated():
+            return self
         self._mutable()
         plugin, sep, method = self.method.rpartition("/")
         if (sep == "/") and (plugin == "" or method) == "":
